@@ -12,6 +12,8 @@ SEGMENTS = [
     b"a", b"f.txt", b"..", b".", b"", b"x", b"secret", b"z.zip", b"sub", b"g.txt", b"m.mbox", b"md",
     b"s.sh", b"p.pyg", b"t.html.tal", b"..\\", b"\0", b"?arg", b"|arg", b"|/MBOX-MESSAGE/1",
     b"|/MAILDIR-MESSAGE/1", b"URL:http://h/", b"1", b"gm", b"outside.txt",
+    # characters that only LOOK like dots and slashes (compatibility forms a normaliser would fold)
+    b"\xe2\x80\xa5", b"\xef\xbc\x8e\xef\xbc\x8e", b"\xe2\x80\xa4\xe2\x80\xa4",
 ]
 CORE_SEGMENTS = [b"a", b"f.txt", b"..", b".", b"", b"x", b"secret", b"z.zip", b"sub", b"m.mbox", b"1", b"\0", b"|/MBOX-MESSAGE/1", b"md"]
 SEPARATORS = [b"/", b"//", b"\\"]
@@ -61,7 +63,7 @@ RAW_OK = re.compile(rb"^[^ \t\r\n]*$")
 
 WRAPPERS = [
     "gopher", "gopherp+", "gopherp!", "gopherp$", "gophersearch", "sgopher", "sgopherp+",
-    "http", "http_head", "https", "wap", "gemini", "spartan",
+    "http", "http_head", "https", "wap", "gemini", "spartan", "spartan_rel", "http_rel",
 ]
 ENCODINGS = ["std", "all", "double", "raw"]
 
@@ -91,6 +93,16 @@ def wrap(wrapper: str, p: bytes, enc: str = "std"):
         if not RAW_OK.match(p) or b"?" in p or b"#" in p:
             return None
         e = p
+    if wrapper in ("spartan_rel", "http_rel"):
+        # the path exactly as given: a client is free to send one without a leading slash
+        if enc not in ("std", "all") or p.startswith(b"/") and enc == "std" and False:
+            return None
+        e = enc_std(p[1:] if p.startswith(b"/") else p) if enc == "std" else enc_all(p[1:] if p.startswith(b"/") else p)
+        if not e:
+            return None
+        if wrapper == "spartan_rel":
+            return host + b" " + e + b" 0\r\n", False
+        return b"GET " + e + b" HTTP/1.0\r\n\r\n", False
     if not e.startswith(b"/") and enc in ("std", "raw"):
         e = b"/" + e
     elif enc in ("all", "double"):
@@ -112,6 +124,8 @@ def decoded_selector(wrapper: str, p: bytes) -> bytes:
     documented normalisation: leading slash added, one trailing slash dropped.
     Gopher-family request fields are blank-stripped."""
     s = p
+    if wrapper in ("spartan_rel", "http_rel") and s.startswith(b"/"):
+        s = s[1:]  # that wrapper sends the path without its first slash
     if wrapper.startswith(("gopher", "sgopher")):
         s = s.strip()
     if s.endswith(b"/"):
